@@ -20,7 +20,8 @@ for d in sorted(glob.glob('/verif/seeded/*')):
                 key = ' (`%s`)' % m.group(1)
                 break
         cells.append('%s %s: %s%s' % (c, r.get('tier', 'quick'), mark, key))
-    rows.append((sid, ', '.join(os.path.basename(f) for f in files), first[:220].replace('|', '/'), '; '.join(cells), 'yes' if det else 'NO'))
+    own = runs.get(sid.split('-')[0], {}).get('exit') == 1
+    rows.append((sid, ', '.join(os.path.basename(f) for f in files), first[:220].replace('|', '/'), '; '.join(cells), 'yes' if det else 'NO', 'yes' if own else 'NO'))
 with open('/verif/MUTATIONS.md', 'w') as f:
     f.write('# Seeded changes and what the checks report\n\n')
     f.write('Each change keeps the 728 repository tests green and breaks the property named by its id; it was produced by a '
@@ -28,9 +29,9 @@ with open('/verif/MUTATIONS.md', 'w') as f:
             '`tools/seedrun.py <id> <checks>` applies it to /repo, runs the checks and reverts. Columns: files touched, '
             'first line of the author\'s notes, result of every check that was run against it (the reported violation '
             'class in brackets), detected by at least one check.\n\n')
-    f.write('| seed | files | what it does | checks run | detected |\n|---|---|---|---|---|\n')
+    f.write('| seed | files | what it does | checks run | detected | by its own property\'s check |\n|---|---|---|---|---|---|\n')
     for r in rows:
-        f.write('| %s | %s | %s | %s | %s |\n' % r)
+        f.write('| %s | %s | %s | %s | %s | %s |\n' % r)
     n = sum(1 for r in rows if r[4] == 'yes')
-    f.write('\n%d of %d seeded changes are detected by at least one check.\n' % (n, len(rows)))
+    f.write('\n%d of %d seeded changes are detected by at least one check, %d by the check of the property they were written against.\n' % (n, len(rows), sum(1 for r in rows if r[5] == 'yes')))
 print(open('/verif/MUTATIONS.md').read()[-300:])
